@@ -169,6 +169,20 @@ CHECKS = {
              'AmpSF x PVP groups x support array kinds x text x header strings x write orders x identifiers x targets. ' + TB,
         technique='Lean 4 proof (omega, induction on retry fuel and on element lists, reuse of C09 lemmas) + two byte-level parsers + '
                   'payload byte comparison + write/read differential'),
+    'C04': dict(
+        text='Lean 4 theorems over the reals about the SICD projection model as sarpy builds it: the point returned by the R/Rdot-contour / '
+             'plane intersection lies on the plane, at range R from the ARP and has range rate Rdot, for every image formation branch, '
+             'adjustable parameter set and plane, under explicit non-degeneracy hypotheses (each shown satisfiable); results are pointwise, '
+             'hence independent of batch, order and block size; exit conditions of the constant-height and ground-to-image iterations; PFA / '
+             'INCA range-rate formulas are the time derivatives of the range formulas. The same definitions run on IEEE doubles and are '
+             'compared with sarpy on synthetic structures of every branch; an independent Volume-3 oracle checks surface, contour, round '
+             'trip, invariances and wrappers on the implementation.',
+        design='DESIGN.md 6/C04',
+        note='proof, partial: real-number core proved; float code tied by tolerance correspondence (alarm 1e-4 m / 1e-3 pixel, noise 1e-8); '
+             'convergence of the iterations, the final slant-plane correction of the HAE method and DEM projection are not theorems (oracle '
+             'only / not covered). One open known finding: g2i-exit-coupled-to-batch. ' + TB,
+        technique='Lean 4 proof (vector algebra by ring/linear_combination/field_simp, Real.sqrt, HasDerivAt) + bit-exact Float '
+                  'correspondence + independent SICD Volume 3 oracle'),
 }
 
 
